@@ -125,6 +125,9 @@ class Run:
         self.caps = []
         self.replay_fn = replay_fn
         self.harness_errors = []
+        import glob
+        for f in glob.glob(os.path.join(VERIF, "replays", "%s-*.json" % prop)):
+            os.remove(f)
 
     # -- exhaustive map over a case iterator ----------------------------------------------------
     def map(self, check_fn, cases, chunk=32, family="", sample_every=None):
